@@ -273,6 +273,17 @@ func catalogue() []geom.Geom {
 		geom.MultiLineString{{{X: 0, Y: 0}, {X: 100, Y: 0}}, {{X: 0, Y: 0}, {X: 100, Y: 0}}},
 		geom.GeometryCollection{geom.Point{X: 3, Y: 4}, geom.LineString{{X: 50, Y: 0}, {X: 150, Y: 0}}, geom.Point{X: 3, Y: 4}, geom.LineString{{X: 50, Y: 0}, {X: 150, Y: 0}}},
 		geom.MultiPolygon{geom.Polygon{gen(0, 0)}, geom.Polygon{gen(0, 0)}, shift(geom.Polygon{gen(0, 0)}, 2000)},
+		// five and six members of every reorderable kind: every permutation (the
+		// matching removes candidates one by one; its book-keeping only shows
+		// with four or more)
+		geom.Polygon{sq(0, 0, 1000), sq(100, 100, 50), sq(300, 100, 60), sq(500, 100, 70), sq(100, 500, 80)},
+		geom.Polygon{sq(0, 0, 1000), sq(100, 100, 50), sq(300, 100, 60), sq(500, 100, 70), sq(100, 500, 80), gen(2000, 0)},
+		geom.MultiLineString{{{X: 0, Y: 0}, {X: 100, Y: 0}}, {{X: 200, Y: 0}, {X: 300, Y: 10}}, {{X: 400, Y: 0}, {X: 500, Y: 20}}, {{X: 600, Y: 0}, {X: 700, Y: 30}, {X: 800, Y: 0}}, {{X: 0, Y: 300}, {X: 100, Y: 300}}},
+		geom.MultiLineString{{{X: 0, Y: 0}, {X: 100, Y: 0}}, {{X: 200, Y: 0}, {X: 300, Y: 10}}, {{X: 400, Y: 0}, {X: 500, Y: 20}}, {{X: 600, Y: 0}, {X: 700, Y: 30}, {X: 800, Y: 0}}, {{X: 0, Y: 300}, {X: 100, Y: 300}}, {{X: 0, Y: 600}, {X: 100, Y: 700}}},
+		geom.MultiPolygon{{sq(0, 0, 100)}, {sq(300, 0, 110)}, {sq(600, 0, 120), sq(610, 10, 20)}, {sq(900, 0, 130)}, {gen(0, 1000)}},
+		geom.MultiPolygon{{sq(0, 0, 100)}, {sq(300, 0, 110)}, {sq(600, 0, 120), sq(610, 10, 20)}, {sq(900, 0, 130)}, {gen(0, 1000)}, {sq(0, 3000, 100)}},
+		geom.GeometryCollection{geom.Point{X: 0, Y: 0}, geom.Point{X: 500, Y: 0}, geom.LineString{{X: 1000, Y: 0}, {X: 1100, Y: 0}}, geom.LineString{{X: 1500, Y: 0}, {X: 1600, Y: 0}}, geom.Polygon{sq(2000, 0, 100)}},
+		geom.GeometryCollection{geom.Point{X: 0, Y: 0}, geom.Point{X: 500, Y: 0}, geom.LineString{{X: 1000, Y: 0}, {X: 1100, Y: 0}}, geom.LineString{{X: 1500, Y: 0}, {X: 1600, Y: 0}}, geom.Polygon{sq(2000, 0, 100)}, geom.MultiPoint{{X: 3000, Y: 0}}},
 		// many members (40 lines, 33 polygons, 64 points in a collection)
 		func() geom.Geom {
 			var o geom.MultiLineString
@@ -700,7 +711,7 @@ func main() {
 		return
 	}
 	rep = report.New("C15", tier, "model_checking")
-	rep.Rule = "E1: 37 base geometries of all eight types (collections nested 40 and 100 deep; boxes also flat: the bounds of a vertical / horizontal line and of a point; axis-aligned and general-position rings, closed and unclosed, a ring visiting one vertex twice, sliver rings thinner than the tolerance, multi-geometries of 33..64 members, multi-geometries holding the same member twice, distinct members sharing one bounding box, nested collections, empty geometries) whose members are >= 90 apart, tol in {1e-3, 0.1}, and the same geometries shifted by (2e7,-3e7) with tol 1e-9 (below the float spacing there); for each every derived h: identity; all coordinates perturbed by +-tol/2 in 6 sign patterns (expected true); every permutation of members combined with perturbation (true); every start rotation of closed rings (true); all coordinates perturbed by 0.9 tol (true); every single coordinate displaced by 2*tol and by 1.2*tol, incl. the closing vertex of a closed ring on its own (false); every member deleted / duplicated at every position (false); in every line, ring and multi-point every vertex deleted, doubled, a midpoint inserted after it, and (lines, rings) every two neighbours exchanged (false); every line / line member reversed (false); change of type with identical vertices (false); and, for containers, every such derivation applied to every member with the other members unchanged (nested to depth 2: rings permuted inside a multi-polygon member, members of a nested collection, ...). Every pair is evaluated in both directions (symmetry), and again twice with both operands cut from flat vertex buffers (same answers, buffers not written). Non-trivial = every derivation other than identity."
+	rep.Rule = "E1: 45 base geometries of all eight types (collections nested 40 and 100 deep; boxes also flat: the bounds of a vertical / horizontal line and of a point; axis-aligned and general-position rings, closed and unclosed, a ring visiting one vertex twice, sliver rings thinner than the tolerance, multi-geometries of 5 and 6 members (every permutation) and of 33..64 members, multi-geometries holding the same member twice, distinct members sharing one bounding box, nested collections, empty geometries) whose members are >= 90 apart, tol in {1e-3, 0.1}, and the same geometries shifted by (2e7,-3e7) with tol 1e-9 (below the float spacing there); for each every derived h: identity; all coordinates perturbed by +-tol/2 in 6 sign patterns (expected true); every permutation of members combined with perturbation (true); every start rotation of closed rings (true); all coordinates perturbed by 0.9 tol (true); every single coordinate displaced by 2*tol and by 1.2*tol, incl. the closing vertex of a closed ring on its own (false); every member deleted / duplicated at every position (false); in every line, ring and multi-point every vertex deleted, doubled, a midpoint inserted after it, and (lines, rings) every two neighbours exchanged (false); every line / line member reversed (false); change of type with identical vertices (false); and, for containers, every such derivation applied to every member with the other members unchanged (nested to depth 2: rings permuted inside a multi-polygon member, members of a nested collection, ...). Every pair is evaluated in both directions (symmetry), and again twice with both operands cut from flat vertex buffers (same answers, buffers not written). Non-trivial = every derivation other than identity."
 	cat := catalogue()
 	if tier == "thorough" {
 		cat = append(cat, generated()...)
